@@ -8,61 +8,34 @@ Vocabulary (GrpcModel/Model/Binlog.lean): `truncateMetadata h es` / `truncateMes
 metadata entry; `metaVerdict` = the executable monitor that is run on the implementation.
 `hfit : h = maxUInt → csize es ≤ h` only says that the total size of existing slices is < 2^64.
 
-F7: the statement's clause "grpc-trace-bin always kept" is FALSE of the code (a grpc-trace-bin entry
-behind the first over-limit entry is cut with the rest): `trace_bin_always_kept_counterexample`,
-`statement_holds_counterexample`; what does hold is `trace_bin_always_kept_partial` /
-`statement_holds_partial`, and `fixed_satisfies_statement` shows the suggested patch satisfies
-the whole statement.
+F7 (fixed by /repo commit 6e01388): before that commit `truncateMetadata` cut the entry list at the
+first over-limit entry, so a grpc-trace-bin entry behind it was lost (limit 4, entries
+[bigkey=bigvalue, grpc-trace-bin=t] logged nothing); this file then carried
+`trace_bin_always_kept_partial` + `trace_bin_always_kept_counterexample` / `statement_holds_counterexample`.
+The model now ports the fixed code and the full statement is a theorem: `statement_holds`,
+`trace_bin_always_kept`.
 -/
 import GrpcProofs.Lemmas.Binlog
 namespace GrpcProofs.C55
 open GrpcModel.Binlog
 open GrpcProofs.Lemmas
 
-/-- The logged metadata is the LONGEST in-order prefix of the entry list whose counted bytes
-    (grpc-trace-bin = 0) fit in the header limit. -/
-theorem result_is_longest_fitting_prefix (h : Nat) (es : List Entry) (hfit : h = maxUInt → csize es ≤ h) :
-    (truncateMetadata h es).1 <+: es ∧ csize (truncateMetadata h es).1 ≤ h ∧
-    ∀ p, p <+: es → csize p ≤ h → p.length ≤ (truncateMetadata h es).1.length :=
-  Binlog.result_is_longest_fitting_prefix h es hfit
-
-/-- Same, read on the counted (non-trace-bin) entries alone: those logged are the longest prefix of
-    the counted loggable entries whose key+value sizes fit. -/
-theorem counted_entries_longest_fitting_prefix (h : Nat) (es : List Entry) (hfit : h = maxUInt → csize es ≤ h) :
-    (truncateMetadata h es).1.filter counted <+: es.filter counted ∧
-    csize ((truncateMetadata h es).1.filter counted) ≤ h ∧
-    ∀ q, q <+: es.filter counted → csize q ≤ h → q.length ≤ ((truncateMetadata h es).1.filter counted).length :=
-  Binlog.counted_entries_longest_fitting_prefix h es hfit
-
-/-- truncated is set exactly when something was dropped. -/
-theorem truncated_flag_iff_dropped (h : Nat) (es : List Entry) :
-    ((truncateMetadata h es).2 = true ↔ (truncateMetadata h es).1 ≠ es) ∧
-    ((truncateMetadata h es).2 = true ↔ (truncateMetadata h es).1.length < es.length) :=
-  Binlog.truncated_flag_iff_dropped h es
-
-/-- "not counted": which counted entries are logged does not depend on the grpc-trace-bin entries
-    present (deleting them all from the input gives the same counted output). -/
-theorem trace_bin_not_counted (h : Nat) (es : List Entry) :
-    (truncateMetadata h es).1.filter counted = (truncateMetadata h (es.filter counted)).1 :=
-  Binlog.trace_bin_not_counted h es
-
-/- Full statement (FALSE, see the counterexample below):
-     ∀ h es e, e ∈ es → e.key = traceBin → e ∈ (truncateMetadata h es).1
-   Proved part: a grpc-trace-bin entry is kept whenever everything in front of it fits. -/
-theorem trace_bin_always_kept_partial (h : Nat) (pre post : List Entry) (e : Entry)
-    (hk : e.key = traceBin) (hpre : csize pre ≤ h) :
-    pre ++ [e] <+: (truncateMetadata h (pre ++ e :: post)).1 ∧ e ∈ (truncateMetadata h (pre ++ e :: post)).1 :=
-  Binlog.trace_bin_always_kept_partial h pre post e hk hpre
-
-/-- F7 witness: limit 4, entries [bigkey=bigvalue, grpc-trace-bin=t] → nothing is logged. -/
-theorem trace_bin_always_kept_counterexample :
-    ¬ ∀ (h : Nat) (es : List Entry) (e : Entry), e ∈ es → e.key = traceBin → e ∈ (truncateMetadata h es).1 :=
-  Binlog.trace_bin_always_kept_counterexample
+/-- THE STATEMENT, for the code: for every limit and every entry list, what `truncateMetadata` logs
+    satisfies `Holds` — the counted entries kept are the longest in-order fitting prefix of the counted
+    loggable entries, every grpc-trace-bin entry is kept, nothing else changes, truncated ⇔ dropped. -/
+theorem statement_holds (h : Nat) (es : List Entry) (hfit : h = maxUInt → csize es ≤ h) :
+    Holds h es (truncateMetadata h es).1 (truncateMetadata h es).2 :=
+  Binlog.statement_holds h es hfit
 
 /-- The monitor run on the implementation decides exactly the statement. -/
 theorem metaVerdict_ok_iff (h : Nat) (inp out : List Entry) (flag : Bool) :
     metaVerdict h inp out flag = .ok ↔ Holds h inp out flag :=
   Binlog.metaVerdict_ok_iff h inp out flag
+
+/-- …so the code's own result always gets verdict `ok`. -/
+theorem code_verdict (h : Nat) (es : List Entry) (hfit : h = maxUInt → csize es ≤ h) :
+    metaVerdict h es (truncateMetadata h es).1 (truncateMetadata h es).2 = .ok :=
+  Binlog.code_verdict h es hfit
 
 /-- What `Holds` (its local "next entry does not fit" form) gives: the logged counted entries are the
     longest fitting prefix of the counted loggable entries, and every grpc-trace-bin entry is logged. -/
@@ -71,38 +44,38 @@ theorem statement_implies {h : Nat} {inp out : List Entry} {flag : Bool} (H : Ho
     (∀ e ∈ inp, e.key = traceBin → e ∈ out) :=
   ⟨Binlog.holds_longest H, Binlog.holds_trace_bin_kept H⟩
 
-/-- The code's result gets verdict `ok`, or — exactly when a grpc-trace-bin entry sits behind the
-    cut — the always-kept verdict, and never any other. -/
-theorem code_verdict (h : Nat) (es : List Entry) (hfit : h = maxUInt → csize es ≤ h) :
-    metaVerdict h es (truncateMetadata h es).1 (truncateMetadata h es).2 =
-      if (es.drop (truncateMetadata h es).1.length).any (fun e => !(counted e)) then .traceBinDropped else .ok :=
-  Binlog.code_verdict h es hfit
+/-- Shape of the result: the LONGEST prefix of the entry list whose counted bytes (grpc-trace-bin = 0)
+    fit in the header limit, followed by the grpc-trace-bin entries behind it. -/
+theorem result_is_longest_fitting_prefix (h : Nat) (es : List Entry) (hfit : h = maxUInt → csize es ≤ h) :
+    ∃ n, (truncateMetadata h es).1 = es.take n ++ (es.drop n).filter (fun e => !(counted e)) ∧
+      csize (es.take n) ≤ h ∧ ∀ p, p <+: es → csize p ≤ h → p.length ≤ n :=
+  Binlog.result_is_longest_fitting_prefix h es hfit
 
-/- Full statement (FALSE, F7):  ∀ h es, Holds h es (truncateMetadata h es).1 (truncateMetadata h es).2 -/
-theorem statement_holds_partial (h : Nat) (es : List Entry) (hfit : h = maxUInt → csize es ≤ h)
-    (hno : ∀ e ∈ es.drop (truncateMetadata h es).1.length, e.key ≠ traceBin) :
-    Holds h es (truncateMetadata h es).1 (truncateMetadata h es).2 := by
-  rw [← metaVerdict_ok_iff, code_verdict h es hfit, if_neg]
-  intro hany
-  obtain ⟨x, hx, hp⟩ := List.any_eq_true.1 hany
-  have := hno x hx
-  simp [counted] at hp
-  exact this hp
+/-- Read on the counted (non-trace-bin) entries alone: those logged are the longest prefix of the
+    counted loggable entries whose key+value sizes fit. -/
+theorem counted_entries_longest_fitting_prefix (h : Nat) (es : List Entry) (hfit : h = maxUInt → csize es ≤ h) :
+    (truncateMetadata h es).1.filter counted <+: es.filter counted ∧
+    csize ((truncateMetadata h es).1.filter counted) ≤ h ∧
+    ∀ q, q <+: es.filter counted → csize q ≤ h → q.length ≤ ((truncateMetadata h es).1.filter counted).length :=
+  Binlog.counted_entries_longest_fitting_prefix h es hfit
 
-theorem statement_holds_counterexample :
-    ¬ ∀ (h : Nat) (es : List Entry), Holds h es (truncateMetadata h es).1 (truncateMetadata h es).2 := by
-  intro H
-  have := (metaVerdict_ok_iff _ _ _ _).2
-    (H 4 [⟨asciiBytes "bigkey", asciiBytes "bigvalue"⟩, ⟨traceBin, [116]⟩])
-  revert this
-  decide
+/-- truncated is set exactly when something was dropped. -/
+theorem truncated_flag_iff_dropped (h : Nat) (es : List Entry) (hfit : h = maxUInt → csize es ≤ h) :
+    ((truncateMetadata h es).2 = true ↔ (truncateMetadata h es).1 ≠ es) ∧
+    ((truncateMetadata h es).2 = true ↔ (truncateMetadata h es).1.length < es.length) :=
+  Binlog.truncated_flag_iff_dropped h es hfit
 
-/-- The suggested patch (keep the grpc-trace-bin entries behind the cut as well) satisfies the whole
-    statement, the always-kept clause included. -/
-theorem fixed_satisfies_statement (h : Nat) (es : List Entry) (hfit : h = maxUInt → csize es ≤ h) :
-    Holds h es (truncateMetadataFixed h es).1 (truncateMetadataFixed h es).2 ∧
-    ∀ e ∈ es, e.key = traceBin → e ∈ (truncateMetadataFixed h es).1 :=
-  ⟨Binlog.fixed_holds h es hfit, Binlog.holds_trace_bin_kept (Binlog.fixed_holds h es hfit)⟩
+/-- "not counted": which counted entries are logged does not depend on the grpc-trace-bin entries
+    present (deleting them all from the input gives the same counted output). -/
+theorem trace_bin_not_counted (h : Nat) (es : List Entry) :
+    (truncateMetadata h es).1.filter counted = (truncateMetadata h (es.filter counted)).1 :=
+  Binlog.trace_bin_not_counted h es
+
+/-- "always kept": every grpc-trace-bin entry of the input is logged, wherever it stands.
+    (Full strength since 6e01388; it was `_partial` + a counterexample before.) -/
+theorem trace_bin_always_kept (h : Nat) (es : List Entry) (hfit : h = maxUInt → csize es ≤ h)
+    (e : Entry) (he : e ∈ es) (hk : e.key = traceBin) : e ∈ (truncateMetadata h es).1 :=
+  Binlog.trace_bin_always_kept h es hfit e he hk
 
 /-- A message entry holds exactly the first min(limit, len) payload bytes (so at most the limit),
     and truncated is set exactly when bytes were dropped. -/
@@ -139,18 +112,25 @@ theorem loggable_all_appear_in_order :
         metadataKeyOmit e.key = false ∧ ∃ vs, (e.key, vs) ∈ md ∧ e.value ∈ vs) :=
   Binlog.loggable_all_appear_in_order
 
-/-- End to end through `Build`: a client/server header entry is a prefix of the loggable entries of
-    the map (in its iteration order) that fits, flagged iff shorter, without omitted headers; a message
-    entry carries the untruncated length and the first min(limit,len) bytes. -/
+/-- End to end through `Build`: a client/server header entry satisfies the statement with respect to
+    the loggable entries of the map (in its iteration order): an in-order sublist that fits, flagged iff
+    something was dropped, with every grpc-trace-bin entry and without omitted headers. -/
 theorem build_header_spec (h m : Nat) (md : MD) (hfit : h = maxUInt → csize (mdToMetadataProto md) ≤ h) :
     build h m (.serverHeader md) = build h m (.clientHeader md) ∧
     ∃ out flag, build h m (.clientHeader md) = .mdata out flag ∧
-      out <+: mdToMetadataProto md ∧ csize out ≤ h ∧ (flag = true ↔ out ≠ mdToMetadataProto md) ∧
-      ∀ e ∈ out, mustOmit e.key = false := by
+      Holds h (mdToMetadataProto md) out flag ∧ csize out ≤ h ∧ (flag = true ↔ out ≠ mdToMetadataProto md) ∧
+      (∀ e ∈ mdToMetadataProto md, e.key = traceBin → e ∈ out) ∧
+      ∀ e ∈ out, e ∈ mdToMetadataProto md ∧ mustOmit e.key = false := by
   refine ⟨rfl, _, _, rfl, ?_⟩
-  obtain ⟨h1, h2, _⟩ := result_is_longest_fitting_prefix h (mdToMetadataProto md) hfit
-  exact ⟨h1, h2, (truncated_flag_iff_dropped h _).1,
-    fun e he => (omitted_never_appear md e (h1.subset he)).1⟩
+  have H := statement_holds h (mdToMetadataProto md) hfit
+  obtain ⟨n, hn, _, _⟩ := result_is_longest_fitting_prefix h (mdToMetadataProto md) hfit
+  refine ⟨H, H.2.1, H.2.2.2.2, (statement_implies H).2, fun e he => ?_⟩
+  have hin : e ∈ mdToMetadataProto md := by
+    rw [hn] at he
+    rcases List.mem_append.1 he with h1 | h1
+    · exact List.mem_of_mem_take h1
+    · exact List.mem_of_mem_drop (List.mem_filter.1 h1).1
+  exact ⟨hin, (omitted_never_appear md e hin).1⟩
 
 theorem build_message_spec (h m : Nat) (data : Bytes) (hlen : data.length ≤ maxUInt) :
     build h m (.message data) = .msg data.length (data.take m) (decide (m < data.length)) := by
@@ -163,13 +143,13 @@ theorem build_message_spec (h m : Nat) (data : Bytes) (hlen : data.length ≤ ma
     simp [this]
   · simp [h4.1 hb]
 
--- non-vacuity
+-- non-vacuity (the second pair is the former F7 witness)
 example : (truncateMetadata 4 [⟨asciiBytes "a", [49]⟩, ⟨traceBin, [116]⟩, ⟨asciiBytes "bb", [50, 50]⟩]).2 = true := by decide
 example : (truncateMetadata 4 [⟨asciiBytes "a", [49]⟩, ⟨traceBin, [116]⟩, ⟨asciiBytes "bb", [50, 50]⟩]).1.length = 2 := by decide
+example : truncateMetadata 4 [⟨asciiBytes "bigkey", asciiBytes "bigvalue"⟩, ⟨traceBin, [116]⟩] = ([⟨traceBin, [116]⟩], true) := by decide
+example : metaVerdict 4 [⟨asciiBytes "bigkey", asciiBytes "bigvalue"⟩, ⟨traceBin, [116]⟩] [] true = .traceBinDropped := by decide
 example : Holds 2 [⟨asciiBytes "a", [49]⟩, ⟨traceBin, [116]⟩] [⟨asciiBytes "a", [49]⟩, ⟨traceBin, [116]⟩] false :=
   (metaVerdict_ok_iff _ _ _ _).1 (by decide)
-example : metaVerdict 4 [⟨asciiBytes "bigkey", asciiBytes "bigvalue"⟩, ⟨traceBin, [116]⟩] [] true = .traceBinDropped := by decide
-example : metaVerdict 4 [⟨asciiBytes "bigkey", asciiBytes "bigvalue"⟩, ⟨traceBin, [116]⟩] [⟨traceBin, [116]⟩] true = .ok := by decide
 example : truncateMessage 2 [1, 2, 3] = ([1, 2], true) := by decide
 example : metadataKeyOmit (asciiBytes "grpc-status") = true ∧ metadataKeyOmit (asciiBytes "grpc-trace-bin") = false := by decide
 example : mdToMetadataProto [(asciiBytes "te", [[1]]), (asciiBytes "a", [[1], [2]])] = [⟨asciiBytes "a", [1]⟩, ⟨asciiBytes "a", [2]⟩] := by decide
